@@ -370,6 +370,13 @@ func safeEscape(fn func(string) string, s string) (out string, pan string) {
 	return fn(s), ""
 }
 
+func c13Ext(strat string) string {
+	if strat == "" || strat == "HTML" {
+		return "unknownext"
+	}
+	return strat
+}
+
 var c13Boundary = []string{"0", "9", "A", "F", "a", "f", "G", " ", "\t", "\n", "\\", "&", "#", ";", "%", "u", "x", "<", "\"", "'",
 	"\u007f", "\u00a0", "\uffff", "\U00010000", "\U0001F600", "-", "+", "}", "/",
 	"\x00", "\x01", "\r", "\x1f", "7", "8", "\u2028", "\u00ff", "\u0100", "\b", "\f", "\v", "=", "`"}
@@ -438,6 +445,11 @@ func c13Levels(tier string) []core.Level {
 		for i := range c13Boundary {
 			for o := 0; o < 3; o++ {
 				emit(core.Case{Fam: "twigfilter", N: []int{i, o}})
+			}
+		}
+		for st := 0; st < 6; st++ {
+			for other := 0; other < 2; other++ {
+				emit(core.Case{Fam: "unknownstrategy", N: []int{st, other}})
 			}
 		}
 	}})
@@ -705,6 +717,35 @@ func c13Run(c core.Case) core.Result {
 						g = gl[i]
 					}
 					return core.Violation("filter-differs", fmt.Sprintf("escape('%s') of %d x 'a' + %q + ...: the filter gives ...%q, the escaper ...%q", e.name, base-5+i, ch, tail(g, 60), tail(wl[i], 60)))
+				}
+			}
+		}
+		return core.Okay(true, "ok")
+	case "unknownstrategy":
+		// a strategy name that has no escaper falls back to html - the first time and every later time, in one
+		// execution and in the next on the same environment; a value already safe for html is left alone every time.
+		// Another environment configured with a pass-through escape filter does not change any of it.
+		strat := []string{"xml", "svg", "nosuch", "htm", "HTML", ""}[c.N[0]]
+		env := twig.New(&stick.MemoryLoader{Templates: map[string]string{
+			"t.html":                "{{ v|escape('" + strat + "')|raw }}|{{ v|escape('" + strat + "')|raw }}|{{ s|escape('" + strat + "')|raw }}|{{ s|escape('" + strat + "')|raw }}|{{ v|escape('" + strat + "')|raw }}",
+			"feed." + c13Ext(strat): "{{ v }}|{{ s|escape }}|{{ s }}|{{ v|escape }}|{{ v }}",
+		}})
+		if c.N[1] == 1 {
+			mail := twig.New(nil)
+			mail.Filters["escape"] = func(ctx stick.Context, v stick.Value, args ...stick.Value) stick.Value { return v }
+		}
+		v, safe := "<a href='x'>T&J</a>", "T &amp; J"
+		ctx := map[string]stick.Value{"v": v, "s": stick.NewSafeValue(safe, "html")}
+		hv := escape.HTML(v)
+		wants := map[string]string{"t.html": hv + "|" + hv + "|" + safe + "|" + safe + "|" + hv, "feed." + c13Ext(strat): hv + "|" + safe + "|" + safe + "|" + hv + "|" + hv}
+		for round := 1; round <= 3; round++ {
+			for name, want := range wants {
+				out, err, pan := tryExec(env, name, ctx)
+				if pan != "" || err != nil {
+					return core.Violation("panic", fmt.Sprintf("%s with the strategy %q, execution %d: %v %s", name, strat, round, err, pan))
+				}
+				if out != want {
+					return core.Violation("filter-differs", fmt.Sprintf("%s (strategy / extension %q, no escaper of its own: html), execution %d on one environment, renders %q, want %q", name, strat, round, out, want))
 				}
 			}
 		}
